@@ -51,8 +51,9 @@ def template(name, choose, idx, free=True):
         tag = TAGS[choose('tag%d' % idx, len(TAGS))] if name in ('one-chan', 'full', 'two-groups', 'two-chans') else 'int32'
         n = choose('n%d' % idx, 3) if name in ('one-chan', 'full', 'two-chans') else 2
     else:       # in multi-segment programs the array dtype and length are tied to the position (keeps the product small)
-        tag = TAGS[(len(name) * 5 + ord(name[0])) % len(TAGS)]     # a channel keeps its dtype across segments
-        n = (idx + len(name)) % 3
+        base = 'two-chans' if name == 'two-chans-rev' else name
+        tag = TAGS[(len(base) * 5 + ord(base[0])) % len(TAGS)]     # a channel keeps its dtype across segments
+        n = (idx + len(base)) % 3
     if name == 'one-chan':
         return [['chan', 'g', 'a1', tag, n, [['p', 'symint']]]]
     if name == 'full':
@@ -71,6 +72,8 @@ def template(name, choose, idx, free=True):
         return [['root', [['big', 'symint'], ['w', 'wrap:Uint64']]]]
     if name == 'list-int':
         return [['chan', 'g', 'l', 'list-int', 2, [['w', 'wrap:Int8'], ['np', 'np:uint16']]]]
+    if name == 'list-dt':
+        return [['chan', 'g', 'ld', 'list-dt', 4, []], ['chan', 'g', 'ld2', 'list-dt', 2, []]]
     if name == 'dt-chan':
         return [['chan', 'g', 'd', 'datetime64', 2, []], ['chan', 'g', 'a5', 'uint8', 3, []]]
     if name == 'str-props':
@@ -86,6 +89,11 @@ def template(name, choose, idx, free=True):
                 ['group', 'g', [['k', 'bool:True'], ['z', 'float:-0.0'], ['two', 'float:2.0']]],
                 ['chan', 'g', 'a10', 'int32', 1, [['k', 'float:1.0'], ['z', 'int:0'], ['two', 'int:2']]],
                 ['chan', 'g', 'b10', 'int32', 1, [['k', 'int:1'], ['z', 'bool:False'], ['two', 'float:2.0']]]]
+    if name == 'tags-in-content':
+        # the segment tags as ordinary content: names, string values and an integer whose bytes spell TDSm (index = data minus raw data, tag swapped ONLY)
+        return [['root', [['tag', 'int:1834173524'], ['s', 'strv:xTDSmTDShy'], ['TDSm', 'int:1750287444']]],
+                ['group', 'TDSm', [['TDSh', 'strv:TDSm']]], ['chan', 'TDSm', 'TDSh', 'int32', 1, [['k', 'strv:TDSh']]],
+                ['chan', 'g', 'TDSmTDSm', 'uint8', 4, []]]
     if name == 'rejected':
         return [['chan', 'g2', 'r9', 'int32', 1, [['bad', 'unsupported']]]]
     if name == 'big':
@@ -93,6 +101,9 @@ def template(name, choose, idx, free=True):
         return [['chan', 'g', 'big8', 'float64', 8193, []], ['chan', 'g', 'big1', 'uint8', 65537, []], ['chan', 'g', 'big2', 'int16', 4097, []]]
     if name == 'two-chans':
         return [['chan', 'g', 'a8', tag, n, []], ['chan', 'g', 'b8', tag, 2 - min(n, 2), []]]
+    if name == 'two-chans-rev':
+        # the same two channels listed in the opposite order (a later segment of the same session must start a new object list)
+        return [['chan', 'g', 'b8', tag, 1 + n % 2, []], ['chan', 'g', 'a8', tag, 2, []]]
     raise ValueError(name)
 
 
@@ -117,6 +128,13 @@ def tasks(tier, seed):
         ts.append(dict(sessions=[[a, b]], versions=[4713], index=True))
         ts.append(dict(sessions=[[a], [b]], versions=[4712, 4712], index=(TEMPLATES.index(a) % 2 == 0)))
     ts.append(dict(sessions=[['big']], versions=[4712], index=True))
+    ts.append(dict(sessions=[['tags-in-content']], versions=[4712], index=True))
+    ts.append(dict(sessions=[['tags-in-content', 'one-chan']], versions=[4713], index=True))
+    ts.append(dict(sessions=[['list-dt']], versions=[4712], index=True))
+    ts.append(dict(sessions=[['list-dt', 'dt-chan']], versions=[4713], index=False))
+    ts.append(dict(sessions=[['two-chans', 'two-chans-rev']], versions=[4713], index=True))
+    ts.append(dict(sessions=[['two-chans', 'two-chans', 'two-chans-rev']], versions=[4712], index=False))
+    ts.append(dict(sessions=[['two-chans'], ['two-chans-rev']], versions=[4712, 4713], index=True))
     ts.append(dict(sessions=[['big', 'one-chan']], versions=[4713], index=False))
     for segs in (['full', 'one-chan'], ['one-chan', 'str-chan', 'two-groups'], ['str-props', 'dt-chan']):
         ts.append(dict(kind='paths', segs=segs, sessions=[segs], versions=[4712], index=True))
@@ -335,6 +353,8 @@ def concretize_program(task, inp, _objects_only=False):
             return kind[5:] == 'True'
         if kind == 'str':
             return 'vä/lue'
+        if kind.startswith('strv:'):
+            return kind[5:]
         if kind.startswith('symstr:'):
             return ''.join(chr(inp.get('str_%s_%d' % (uid, i), 97)) for i in range(int(kind[7:])))
         if kind == 'dt':
@@ -364,6 +384,8 @@ def concretize_program(task, inp, _objects_only=False):
                 arr[i] = chr(inp.get('dat_%s_%d_%d_0' % (c, state['k'], i), 97))
         elif tag == 'list-int':
             arr = [(-1) ** i * (state['k'] + i) for i in range(n)]
+        elif tag == 'list-dt':
+            arr = wr.list_dt(n, state['k'])
         else:
             arr = wr.planted(tag, n, state['k'])
         return ChannelObject(g, c, arr, {n_: pval(path, n_, k) for n_, k in pspec} or None)
